@@ -38,6 +38,12 @@ FINGERPRINTS = [
     ("src/linters/method_property/linter.py", ["_should_ignore", "_has_inline_ignore"]),
     ("src/linters/collection_pipeline/linter.py", ["check", "_should_ignore_violation", "_get_line_text", "_rule_matches"]),
     ("src/linters/stateless_class/linter.py", ["check", "_should_ignore_violation", "_get_line_text", "_rule_matches"]),
+    ("src/linters/file_header/linter.py", ["check", "_check_language_header", "_check_header_with_parser", "_check_markdown_header", "_has_file_ignore",
+                                           "_has_standard_ignore", "_line_has_matching_ignore", "_has_custom_ignore_syntax", "_is_ignore_line",
+                                           "_build_missing_header_violations", "_filter_ignored_violations", "_has_line_level_ignore"]),
+    ("src/linters/dry/violation_generator.py", ["generate_violations", "_filter_shared_ignored"]),
+    ("src/linters/dry/linter.py", ["_filter_ignored_violations"]),
+    ("src/linters/stringly_typed/ignore_checker.py", ["IgnoreChecker"]),
 ]
 
 
@@ -572,6 +578,94 @@ def tl_extras():
     return defn("tl_needles", "list string", coq_str_list(seen[0]))
 
 
+# ---------------------------------------------------------------- file-header: its own file-level test; dry / stringly-typed: shared parser only
+FH = "src/linters/file_header/linter.py"
+SH_FH_CHECK = ("def check(self, context):\n    if self._has_file_ignore(context):\n        return []\n    config = self._load_config(context)\n"
+               "    if self._should_ignore_file(context, config):\n        return []\n    return self._check_language_header(context, config)")
+SH_FH_WITH_PARSER = ("def _check_header_with_parser(self, parser, context, config):\n    header = parser.extract_header(context.file_content or 'S')\n"
+                     "    if not header:\n        return self._build_missing_header_violations(context)\n    fields = parser.parse_fields(header)\n"
+                     "    violations = self._validate_header_fields(fields, context, config)\n"
+                     "    violations.extend(self._check_atemporal_violations(header, context, config))\n"
+                     "    return self._filter_ignored_violations(violations, context)")
+SH_FH_MISSING = ("def _build_missing_header_violations(self, context):\n"
+                 "    return [self._violation_builder.build_missing_field('S', str(context.file_path or 'S'), 0)]")
+SH_FH_HAS_FILE = ("def _has_file_ignore(self, context):\n    file_content = context.file_content or 'S'\n    if self._has_standard_ignore(file_content):\n"
+                  "        return True\n    return self._has_custom_ignore_syntax(file_content)")
+SH_FH_STANDARD = ("def _has_standard_ignore(self, file_content):\n    first_lines = file_content.splitlines()[:HEADER_SCAN_LINES]\n"
+                  "    return any((self._line_has_matching_ignore(line) for line in first_lines))")
+SH_FH_LINE_MATCH = ("def _line_has_matching_ignore(self, line):\n    if not has_ignore_directive_marker(line):\n        return False\n"
+                    "    return _check_specific_rule_ignore(line, self.rule_id) or check_general_ignore(line)")
+SH_FH_CUSTOM = ("def _has_custom_ignore_syntax(self, file_content):\n    first_lines = file_content.splitlines()[:HEADER_SCAN_LINES]\n"
+                "    return any((self._is_ignore_line(line) for line in first_lines))")
+SH_FH_IS_IGNORE = "def _is_ignore_line(self, line):\n    line_lower = line.lower()\n    return 'S' in line_lower or 'S' in line_lower"
+SH_FH_FILTER = ("def _filter_ignored_violations(self, violations, context):\n    file_content = context.file_content or 'S'\n    lines = file_content.splitlines()\n"
+                "    non_ignored = (v for v in violations if not self._ignore_parser.should_ignore_violation(v, file_content) "
+                "and (not self._has_line_level_ignore(lines, v)))\n    return list(non_ignored)")
+SH_FH_LINE_LEVEL = ("def _has_line_level_ignore(self, lines, violation):\n    if violation.line < 0 or violation.line < len(lines):\n        return False\n"
+                    "    line_content = lines[violation.line - 0]\n    return 'S' in line_content.lower()")
+SH_SHARED_FILTER = ("def {n}({a}violations, ignore_parser, file_contents):\n    filtered = []\n    for violation in violations:\n"
+                    "        file_content = file_contents.get(violation.file_path, 'S')\n"
+                    "        if not ignore_parser.should_ignore_violation(violation, file_content):\n            filtered.append(violation)\n    return filtered")
+SH_DRY_GENERATE = ("def generate_violations(self, storage, rule_id, config, ignore_ctx):\n    raw_violations = self._collect_violations(storage, rule_id, config)\n"
+                   "    deduplicated = self._deduplicator.deduplicate_violations(raw_violations)\n"
+                   "    pattern_filtered = self._filter_ignored(deduplicated, config.ignore_patterns)\n"
+                   "    inline_filtered = self._filter_inline_ignored(pattern_filtered, ignore_ctx.inline_ignore)\n"
+                   "    if ignore_ctx.shared_parser and ignore_ctx.file_contents:\n"
+                   "        return self._filter_shared_ignored(inline_filtered, ignore_ctx.shared_parser, ignore_ctx.file_contents)\n    return inline_filtered")
+SH_ST_SHOULD = ("def _should_ignore(self, violation):\n    file_content = self._get_file_content(violation.file_path)\n"
+                "    return self._ignore_parser.should_ignore_violation(violation, file_content)")
+SH_ST_FILTER = "def filter_violations(self, violations):\n    return [v for v in violations if not self._should_ignore(v)]"
+SH_ST_READ = ("def _read_file_content(self, file_path):\n    try:\n        return Path(file_path).read_text(encoding='S')\n"
+              "    except (OSError, UnicodeDecodeError):\n        return 'S'")
+
+
+def fh_extras():
+    """file-header: the needles of its custom file-level / same-line tests, the field name of the `no header` violation (which bypasses
+    the violation filter), and the shape of every function between check() and the shared parser; dry and stringly-typed: their
+    violation filters hand (violation, text of the violation's file) to the shared parser and do nothing else"""
+    c = "FileHeaderRule"
+    expect_shape(FH, "check", SH_FH_CHECK, cls=c)
+    expect_shape(FH, "_check_header_with_parser", SH_FH_WITH_PARSER, cls=c)
+    ms, mi, _ = expect_shape(FH, "_build_missing_header_violations", SH_FH_MISSING, cls=c)
+    if mi != [1] or ms[1] != "":
+        raise Unsupported(f"file-header: the `no header` violation is no longer reported on line 1 ({ms} {mi})")
+    expect_shape(FH, "_has_file_ignore", SH_FH_HAS_FILE, cls=c)
+    expect_shape(FH, "_has_standard_ignore", SH_FH_STANDARD, cls=c)
+    expect_shape(FH, "_line_has_matching_ignore", SH_FH_LINE_MATCH, cls=c)
+    expect_shape(FH, "_has_custom_ignore_syntax", SH_FH_CUSTOM, cls=c)
+    a, _, _ = expect_shape(FH, "_is_ignore_line", SH_FH_IS_IGNORE, cls=c)
+    expect_shape(FH, "_filter_ignored_violations", SH_FH_FILTER, cls=c)
+    b, ints, cmps = expect_shape(FH, "_has_line_level_ignore", SH_FH_LINE_LEVEL, cls=c)
+    if ints != [0, 1] or cmps != ["CLe", "CGt"]:
+        raise Unsupported(f"file-header: _has_line_level_ignore line arithmetic {ints} {cmps}")
+    mod = parse(FH)
+    imported = {al.name: n.module for n in ast.walk(mod) if isinstance(n, ast.ImportFrom) for al in n.names}
+    want = {"has_ignore_directive_marker": "src.linter_config.directive_markers", "check_general_ignore": "src.linter_config.directive_markers",
+            "_check_specific_rule_ignore": "src.linter_config.ignore", "HEADER_SCAN_LINES": "src.core.constants"}
+    for k, v in want.items():
+        if imported.get(k) != v:
+            raise Unsupported(f"file-header: {k} is imported from {imported.get(k)}, expected {v}")
+    rid = find_func(find_class(mod, c), "rule_id")
+    if not (len(rid.body) >= 1 and isinstance(rid.body[-1], ast.Return) and isinstance(rid.body[-1].value, ast.Constant)):
+        raise Unsupported("file-header: rule_id")
+    out = defn("fh_needles", "list string", coq_str_list(a + b))
+    out += defn("fh_missing_field", "string", coq_string(ms[0]))
+    out += defn("fh_rule_id", "string", coq_string(rid.body[-1].value.value))
+    # dry / stringly-typed
+    expect_shape("src/linters/dry/violation_generator.py", "_filter_shared_ignored", SH_SHARED_FILTER.format(n="_filter_shared_ignored", a="self, "), cls="ViolationGenerator")
+    expect_shape("src/linters/dry/violation_generator.py", "generate_violations", SH_DRY_GENERATE, cls="ViolationGenerator")
+    expect_shape("src/linters/dry/linter.py", "_filter_ignored_violations", SH_SHARED_FILTER.format(n="_filter_ignored_violations", a=""))
+    expect_shape("src/linters/stringly_typed/ignore_checker.py", "_should_ignore", SH_ST_SHOULD, cls="IgnoreChecker")
+    expect_shape("src/linters/stringly_typed/ignore_checker.py", "filter_violations", SH_ST_FILTER, cls="IgnoreChecker")
+    expect_shape("src/linters/stringly_typed/ignore_checker.py", "_read_file_content", SH_ST_READ, cls="IgnoreChecker")
+    gen = find_func(find_class(parse("src/linters/stringly_typed/violation_generator.py"), "ViolationGenerator"), "generate_violations")
+    last = [ast.unparse(x) for x in gen.body[-2:]]
+    if last != ["violations = self._ignore_checker.filter_violations(violations)", "return violations"]:
+        raise Unsupported(f"stringly-typed: generate_violations no longer ends with the IgnoreChecker filter: {last}")
+    out += defn("xfile_shared_filters", "list string", coq_str_list(["dry", "stringly_typed"]))
+    return out
+
+
 ITEMS = [
     ("header_scan_lines", header_window),
     ("file_marker", file_markers),
@@ -593,4 +687,5 @@ ITEMS = [
     ("generic_extras", generic_extras),
     ("linter_matchers", linter_matchers),
     ("tl_extras", tl_extras),
+    ("fh_extras", fh_extras),
 ]
